@@ -979,6 +979,17 @@ theorem reentrant_depth_irrelevant_without_lookups (P : List K → K → OmProg 
   exact ⟨by rw [Mach.rget_depth_irrelevant _ P hP], by rw [Mach.rget_depth_irrelevant _ P hP],
     by rw [Mach.rget_depth_irrelevant _ P hP]⟩
 
+/-- … and in general the depth beyond what a run needs is irrelevant: if `c[k]`, run at depth `n`, never reaches
+    the depth guard (`safeGet`: every lookup the callbacks make, at every level, either finds its key or still has
+    depth left), then at every greater depth it is exactly the same run with the same result — the guard is only
+    an artefact for callbacks that recurse for ever; for all three machines -/
+theorem reentrant_depth_beyond_need_irrelevant (P : List K → K → OmProg K V) (n m : Nat) (k : K) :
+    (∀ c : Cache K V, Cache.mach.safeGet P n c k → Cache.mach.rget P (n + m) c k = Cache.mach.rget P n c k) ∧
+    (∀ h : HCache K V, HCache.mach.safeGet P n h k → HCache.mach.rget P (n + m) h k = HCache.mach.rget P n h k) ∧
+    (∀ s : Ref K V, Ref.mach.safeGet P n s k → Ref.mach.rget P (n + m) s k = Ref.mach.rget P n s k) :=
+  ⟨fun c h => (Cache.mach.rget_stable_all P n c k h m).1, fun c h => (HCache.mach.rget_stable_all P n c k h m).1,
+   fun c h => (Ref.mach.rget_stable_all P n c k h m).1⟩
+
 /-- the pointer-level caches (real links, PREV / NEXT, rotating anchor) simulate the ring-level caches under a
     re-entrant on_miss too, with equal results: a program that stores the key itself leaves ONE link for it -/
 theorem reentrant_linked_list_refines_ring (lru : Bool) (max : Nat) (hmax : 1 ≤ max) (om : K → OmRes V) (P : List K → K → OmProg K V) (fuel : Nat)
@@ -1020,6 +1031,12 @@ example : ∀ lg k, (selfPriming lg k).NoLookup := by
   intro lg k
   refine .call _ _ rfl (fun o => ?_)
   cases o <;> exact .done _
+
+/-- … so depth 1 is enough for it, on any cache and key (hypothesis of `reentrant_depth_beyond_need_irrelevant`) -/
+example (c : Cache Nat Nat) (k : Nat) : Cache.mach.safeGet selfPriming 1 c k := by
+  cases hf : (Cache.mach (K := Nat) (V := Nat)).find c k with
+  | true => exact Or.inl hf
+  | false => exact Or.inr ⟨trivial, by cases ((Cache.mach (K := Nat) (V := Nat)).stepWith _ _ _).2 <;> trivial⟩
 
 /-- LRU, max_size 3: load 1, 2, 3 through the self-priming loader — three entries, one link each, the returned
     values cached; look 1 up, insert 4: 2 (the oldest) is evicted -/
